@@ -11,7 +11,7 @@ import (
 func init() {
 	Register(&Rule{
 		Name:  "R-AUTH-DOM",
-		Props: []string{"C08"},
+		Props: []string{"C08", "C09"},
 		Min:   6,
 		Doc: "in package app every transfer.Conn handed to a call that moves manifest or file bytes (transfer.SendManifestMultiStream, RecvManifestMultiStream, NewMultiConn, sendDumbData*, recvDumbDiscard*) " +
 			"is a connection for which authenticateTransport(ctx, <that conn>, joinCode, role) succeeded on every path (error tested, failure branch cannot reach the call), or comes from a slice all of whose elements are such " +
